@@ -46,12 +46,13 @@ type StreamOpts struct {
 	OddStrings    bool // non UTF-8 / unterminated strings
 	TimeBias      bool // favour timestamp fields and boundary time values (C12)
 	NoLocalTime   bool
-	FieldFilter   func(m uint16, fi *fitmodel.FieldInfo) bool // nil: all
-	MaxFields     int                                         // max fields per definition (default 8)
-	ExtraFileIds  bool                                        // more file_id messages (same type) later in the stream
-	Proto         byte                                        // 0: draw
-	CompressedPct int                                         // chance of a compressed header per record (default 18)
-	RedefinePct   int                                         // chance of forcing a new definition (default 25)
+	FieldFilter   func(m uint16, fi *fitmodel.FieldInfo) bool                       // nil: all
+	MaxFields     int                                                               // max fields per definition (default 8)
+	ExtraFileIds  bool                                                              // more file_id messages (same type) later in the stream
+	Proto         byte                                                              // 0: draw
+	CompressedPct int                                                               // chance of a compressed header per record (default 18)
+	RedefinePct   int                                                               // chance of forcing a new definition (default 25)
+	ValueHint     func(d D, g uint16, fd fitmodel.FieldDef, be bool) ([]byte, bool) // optional override of the bytes of a field
 }
 
 // DefaultStreamOpts enables everything a well-formed stream may contain.
@@ -595,6 +596,12 @@ func GenStream(d D, o StreamOpts) (*fitmodel.Stream, *GenInfo) {
 				if kind == fitmodel.KindTimeLocal || kind == fitmodel.KindTimeUTC {
 					tmp := timeHint
 					th = &tmp
+				}
+			}
+			if o.ValueHint != nil {
+				if b, ok := o.ValueHint(d, def.Global, fd, def.BigEndian); ok {
+					r.Raw = append(r.Raw, b...)
+					continue
 				}
 			}
 			r.Raw = append(r.Raw, FieldBytes(d, fd, def.BigEndian, &o, th, kind)...)
